@@ -384,8 +384,11 @@ def h_chain(case, pick, st, stats):
             a["_bool"] = 1 if isb else 0
         if op == "reduce" and a["reducer"] in ("sum", "prod") and trmod._magnitude(cur_list) >= 2 ** 30:
             break
-        if op in ("ufunc", "addmasked") and _maxabs(cur_list) >= 2 ** 29:
-            break                                    # 2*x+1 / x+x would leave TLC's 32-bit integers (the model's arithmetic, not the library's)
+        if op in ("ufunc", "addmasked"):
+            # the model's arithmetic is exact: 2*x+1 / x+x must neither leave TLC's 32-bit integers nor wrap at the leaf's own width
+            small = 63 if re.search(r"\bu?int8\b", ty) else (16000 if re.search(r"\bu?int16\b", ty) else 2 ** 29)
+            if _maxabs(cur_list) > small:
+                break
         ev["args"] = {k: v for k, v in a.items() if not k.startswith("_")}
         meta = {"act": op, "args": ev["args"], "from": A.layout._ljson(), "fromty": ty, "chain": list(hist), "py": 1}
         def impure():
